@@ -176,6 +176,7 @@ func (w *World) stubFor(t *Tunnel, outer *Tunnel, h *grpctunnel.TunnelServiceHan
 			car.StripReqNegotiate = true
 			car.StripRespNegotiate = true
 		}
+		car.Meta = ConnMeta{Negotiated: t.Cfg.FC != FCLegacy, FlowControl: t.Cfg.FC == FCBoth}
 		t.Car = car
 		return car
 	}
